@@ -539,3 +539,246 @@ def provider_threading(tier="quick", root=None):
                         "failed" if (missing or n_fn < 15) else "discharged", "ast", time.time() - t1, function=REL,
                         model=dict(not_analysed=missing, functions=n_fn) if (missing or n_fn < 15) else None, engine="E4"))
     return obs
+
+
+# ======================================================================================================
+# provider 3: PERIODIC chains -- left_compress / right_compress / compress of TensorNetwork1DFlat with cyclic=True
+# (E1 engine run from a provider: the registered C09 sweep contracts of contracts/c10_sweeps.py own the same targets for
+# the open-boundary case, and the engine's registry holds one contract per target)
+# ======================================================================================================
+import z3  # noqa: E402
+
+import vf.pyvc as P  # noqa: E402
+from vf.pyvc import Contract, Loop, NS, And, Or, Implies, If, Ref  # noqa: E402
+
+T1 = "quimb/tensor/tn1d/core.py"
+FLAT = f"{T1}::TensorNetwork1DFlat"
+CYC_TRACKED = ("max_bond", "cutoff")
+
+
+def _bool(x):
+    return z3.BoolVal(bool(x))
+
+
+class _Cyc(Contract):
+    """shared modelling of a periodic chain of symbolic length L >= 2 with ONE arbitrary bond k (skolem), 0 <= k < L, bond
+    k joining sites k and (k+1) mod L (k = L-1 is the closing bond); ghosts: cnt = number of compress calls bond k
+    received, ok = every one of them received exactly the caller's options"""
+
+    property_ids = ("C09",)
+    ghost_fields = ("cnt", "ok")
+    drops = "docstrings"
+
+    def new_chain(self, cx, opts):
+        L, k = cx.Int("L"), cx.Int("k")
+        cx.assume(And(L >= 2, 0 <= k, k < L))
+        ref = cx.new_obj("TN1D", L=L, cyclic=True, cnt=z3.IntVal(0), ok=z3.BoolVal(True), k=k)
+        cx.ghost["opts0"] = dict(opts)
+        return ref
+
+    def opts_of(self, cx, kind):
+        return {} if kind == "none" else {"max_bond": cx.Int("max_bond"), "cutoff": cx.Real("cutoff")}
+
+    def attr(self, cx, base, attr, node):
+        if isinstance(base, Ref) and base.kind == "TN1D" and attr in ("L", "cyclic"):
+            return cx.fields(base)[attr]
+        return NotImplemented
+
+    def same_opts(self, cx, kwargs):
+        """z3 Bool: the call received exactly the caller's truncation options (an absent one stays absent)"""
+        o = cx.ghost["opts0"]
+        out = []
+        for key in CYC_TRACKED:
+            if (key in o) != (key in kwargs):
+                return z3.BoolVal(False)
+            if key in o:
+                a, b = kwargs[key], o[key]
+                out.append(a == b if (z3.is_expr(a) and z3.is_expr(b)) else _bool(a is b))
+        return And(*out) if out else z3.BoolVal(True)
+
+    def leaf_site(self, cx, side, ref, i, kwargs, node):
+        """[leaf: TensorNetwork1D.site_tag takes integer sites modulo L] left_compress_site(i) compresses the bond between
+        sites i and i+1 (mod L), right_compress_site(i) the one between i-1 and i (mod L), with the options it receives"""
+        f = cx.fields(ref)
+        L = f["L"]
+        line = node.lineno
+        if side == "left":
+            cx.oblige(f"call-pre@{line}:left_compress_site: -1 <= i <= L-2 (each bond has ONE index in the sweep)", "call-pre",
+                      And(-1 <= i, i <= L - 2), line)
+            b = If(i < 0, i + L, i)
+        else:
+            cx.oblige(f"call-pre@{line}:right_compress_site: 1 <= i <= L", "call-pre", And(1 <= i, i <= L), line)
+            b = i - 1
+        good = And(self.same_opts(cx, kwargs), _bool(kwargs.get("bra", None) is None))
+        f["cnt"] = f["cnt"] + If(b == f["k"], 1, 0)
+        f["ok"] = And(f["ok"], Implies(b == f["k"], good))
+        return None
+
+
+class CycSweep(_Cyc):
+    floor = 8
+    side = "left"
+
+    def cases(self):
+        return [NS(name=f"cyclic,stop={e},opts={k}", ek=e, kind=k) for e in ("None", "int") for k in ("none", "cap")]
+
+    def inputs(self, cx, case):
+        opts = self.opts_of(cx, case.kind)
+        ref = self.new_chain(cx, opts)
+        L = cx.fields(ref)["L"]
+        stop = None
+        if case.ek == "int":
+            stop = cx.Int("stop")
+            cx.assume(And(-1 <= stop, stop <= L - 1) if self.side == "left" else And(0 <= stop, stop <= L))
+        return dict(self=ref, start=None, stop=stop, bra=None, create_bond=False, compress_opts=opts)
+
+    def visited(self, L, k, upto):
+        """bond k was treated once the loop variable has reached `upto`"""
+        if self.side == "left":   # i = -1, 0, ..., upto-1 -> bonds L-1, 0, ..., upto-1
+            return Or(And(k == L - 1, upto >= 0), And(k < L - 1, k < upto))
+        return k >= upto          # i = L, L-1, ..., upto+1 -> bonds L-1, ..., upto
+
+    def end(self, L, a):
+        if self.side == "left":
+            return L - 1 if a.stop is None else a.stop
+        return 0 if a.stop is None else a.stop
+
+    def call(self, cx, name, args, kwargs, node):
+        if name == f".{self.side}_compress_site" and isinstance(args[0], Ref):
+            cx.oblige(f"call-arg@{node.lineno}:create_bond handed on", "call-arg", _bool(kwargs.get("create_bond", None) is cx.old.create_bond),
+                      node.lineno)
+            return self.leaf_site(cx, self.side, args[0], args[1], kwargs, node)
+        return NotImplemented
+
+    def ensures(self, a, r, cx, case):
+        f = cx.fields(a.self)
+        L, k = f["L"], f["k"]
+        d = {"returns-None": _bool(r is None),
+             "arbitrary bond k (closing bond included) compressed EXACTLY once iff inside the swept range": f["cnt"] == If(self.visited(L, k, self.end(L, a)), 1, 0),
+             "every compress call on bond k received exactly the caller's max_bond / cutoff": f["ok"]}
+        if a.stop is None:
+            d["full sweep: every bond of the ring exactly once"] = f["cnt"] == 1
+        return d
+
+    def inv(self, v):
+        cx, o = v.cx, v.old
+        f = cx.fields(o.self)
+        L, k = f["L"], f["k"]
+        e = self.end(L, o)
+        rng = And(-1 <= v.i, v.i <= e) if self.side == "left" else And(e <= v.i, v.i <= L)
+        # (the engine havocs the contents of every dict the loop body mentions: that the sweep leaves its own option dict
+        # alone -- it is handed on as ** copy -- is PROVED here as an invariant, not assumed)
+        return {"i-range": rng, "cnt": f["cnt"] == If(self.visited(L, k, v.i), 1, 0), "ok": f["ok"],
+                "own option dict untouched": self.same_opts(cx, v.compress_opts)}
+
+    @property
+    def loops(self):
+        return {0: Loop("for i in range(start, stop)" if self.side == "left" else "for i in range(start, stop, -1)", self.inv)}
+
+
+class CycLeftCompress(CycSweep):
+    target = f"{FLAT}.left_compress"
+    side = "left"
+
+
+class CycRightCompress(CycSweep):
+    target = f"{FLAT}.right_compress"
+    side = "right"
+
+
+class CycCompress(_Cyc):
+    """compress(form, **opts) on a periodic chain: every bond of the ring -- the closing bond included -- is compressed, by
+    calls that receive exactly the caller's max_bond / cutoff; exactly once for form None / 'left' / 'right' / int (for
+    every centre, below and above L // 2), at least once for 'flat' (whose two half sweeps both start on the closing bond)"""
+
+    target = f"{FLAT}.compress"
+    floor = 8
+
+    def cases(self):
+        return [NS(name=f"cyclic,form={fm},opts={k}", form=fm, kind=k) for fm in ("None", "left", "right", "flat", "int")
+                for k in ("none", "cap")]
+
+    def inputs(self, cx, case):
+        opts = self.opts_of(cx, case.kind)
+        ref = self.new_chain(cx, opts)
+        form = {"None": None, "int": cx.Int("form")}.get(case.form, case.form)
+        if case.form == "int":
+            cx.assume(And(0 <= form, form < cx.fields(ref)["L"]))
+        return dict(self=ref, form=form, create_bond=False, compress_opts=opts)
+
+    def call(self, cx, name, args, kwargs, node):
+        if name == "__isinstance__":
+            v, cname = args
+            if cname in ("Integral", "int", "numbers.Integral"):
+                return P.is_int(v) if hasattr(P, "is_int") else (isinstance(v, int) or (z3.is_expr(v) and z3.is_int(v)))
+            raise P.Unsupported(f"isinstance(..., {cname})")
+        if name in (".left_canonize", ".right_canonize") and isinstance(args[0], Ref):
+            return None   # [leaf] canonisation compresses nothing (QR sweeps: bond sizes never grow)
+        if name in (".left_compress", ".right_compress") and isinstance(args[0], Ref):
+            # callee = the sweep contract proved above (CycSweep.ensures), applied as its abstract effect
+            side = name[1:].split("_")[0]
+            sw = CycLeftCompress() if side == "left" else CycRightCompress()
+            f = cx.fields(args[0])
+            L, k = f["L"], f["k"]
+            line = node.lineno
+            rest = dict(kwargs)
+            stop = rest.pop("stop", None)
+            start = rest.pop("start", None)
+            rest.pop("create_bond", None)
+            if start is not None or len(args) > 1:
+                raise P.Unsupported("sweep called with an explicit start")
+            if stop is not None:
+                cx.oblige(f"call-pre@{line}:{name[1:]}: stop inside the ring", "call-pre",
+                          And(-1 <= stop, stop <= L - 1) if side == "left" else And(0 <= stop, stop <= L), line)
+            # the absorb option added by form='flat' is not a truncation option
+            good = And(self.same_opts(cx, rest), _bool(rest.get("bra", None) is None and set(rest) <= set(cx.ghost["opts0"]) | {"absorb"}))
+            vis = sw.visited(L, k, sw.end(L, NS(stop=stop)))
+            f["cnt"] = f["cnt"] + If(vis, 1, 0)
+            f["ok"] = And(f["ok"], Implies(vis, good))
+            return None
+        return NotImplemented
+
+    def ensures(self, a, r, cx, case):
+        f = cx.fields(a.self)
+        d = {"returns-None": _bool(r is None),
+             "every compress call on the arbitrary bond k received exactly the caller's max_bond / cutoff": f["ok"]}
+        if isinstance(a.form, str) and a.form == "flat":
+            d["flat: arbitrary bond k (closing bond included) compressed at least once, at most twice"] = And(f["cnt"] >= 1, f["cnt"] <= 2)
+            d["flat: only the closing bond is treated twice"] = Implies(f["cnt"] == 2, f["k"] == f["L"] - 1)
+        else:
+            d["arbitrary bond k of the ring (closing bond included) compressed EXACTLY once"] = f["cnt"] == 1
+        return d
+
+
+CYCLIC_CONTRACTS = (CycLeftCompress, CycRightCompress, CycCompress)
+
+
+def provider_cyclic(tier="quick", root=None):
+    root = root or repo_root()
+    obs = []
+    old_repo = P.REPO
+    P.REPO = root
+    P._SRC_CACHE.clear()
+    try:
+        for cls in CYCLIC_CONTRACTS:
+            con = cls()
+            t0 = time.time()
+            fid = con.target
+            try:
+                rep = P.verify(con)
+            except Exception as e:  # noqa
+                obs.append(ObResult(f"{fid}::[cyclic]::engine", "post", "unknown", "z3", time.time() - t0, function=fid,
+                                    detail=f"engine error: {type(e).__name__}: {e}", engine="E1"))
+                continue
+            if rep.status != "ok":
+                obs.append(ObResult(f"{fid}::[cyclic]::status", "post", "unknown", "z3", time.time() - t0, function=fid,
+                                    detail=f"{rep.status}: {rep.detail}"[:400], engine="E1"))
+                continue
+            for o in rep.obligations:
+                oid = o.oid[len(fid):] if o.oid.startswith(fid) else "::" + o.oid
+                obs.append(ObResult(f"{fid}::[cyclic]{oid}", o.kind, o.status, o.backend, o.time, function=fid,
+                                    model=(str(o.model)[:600] if o.status == "failed" else None), line=o.line, engine="E1"))
+    finally:
+        P.REPO = old_repo
+        P._SRC_CACHE.clear()
+    return obs
